@@ -31,10 +31,15 @@ THEOREM_NOTES = {
     "number system": "proved over Q inside a Section with abstract m1/m2 (simplification of DESIGN 2.1: no R instance)",
     "C04_variance_gap": "not proved: the bound |sum x_k^2 q_k + (sig_h^2 - sigma^2) - m2(l,r)| <= sum osc_k(x^2) q_k is not formalised; "
                         "C04_variance_added states what is added to sigma^2 (nothing / the central cell's second moment)",
-    "copula margins": "each margin of MarkovChainLevyCopula uses the same compute_mu_h; covered by C04_mu_h_is_sum only when the grid's "
-                      "axes are equal (grid.left_point/right_point read axes[0]); otherwise F-C04-1",
+    "copula margins": "C04_copula_margins: every margin of the REPAIRED copula chain (per-margin cut-off flag, fix-grid2 9ea0f4f; own axis, "
+                      "fix-grid 7d6dfd9) reproduces its mean; C04_joint_flag_bias quantifies the bias of the previous code (F-C04-2)",
+    "satisfiability": "total additivity of int x nu is assumed only by the finite-variation theorem; C04_mean_identity_infinite_variation "
+                      "(CENTER/ONEONE/TILDE) needs no hypothesis on the first-moment integral",
+    "cancellation": "C04_mean_identity alone is (X - mu_h) + mu_h = X plus the conversion algebra; its content is C04_mu_h_is_sum (the loop is "
+                    "sum x_k q_k with C01's q), C04_mean_rate_explicit (the right-hand side in terms of int_l^r x nu) and "
+                    "C04_conversions_preserve_mean (all four generated conversions keep the first cumulant)",
 }
-LEVEL_TEXT = ("Proof: 5 Coq theorems (closed under the global context): compute_mu_h's running-boundary loop equals sum_k x_k q_k for every "
+LEVEL_TEXT = ("Proof: 10 Coq theorems (closed under the global context): compute_mu_h's running-boundary loop equals sum_k x_k q_k for every "
               "axis; process_drift + sum_k x_k q_k equals the first cumulant per unit time of (a, sigma, nu|[l,r]) in the declared "
               "representation for all four representations and both variation flags (pure algebra over additivity of the first-moment "
               "integral; the four conversions are re-translated from levymodel.py on every run); sigma_h^2 = sigma^2 for finite variation "
@@ -201,7 +206,7 @@ def correspond(res):
               "Model.Chain Model.Drift.\nOpen Scope Q_scope.")
     res.case_lemmas += len(groups)
     for gname, ty_, chk, cs in groups:
-        bad, _ = parallel_coq_bad(PROP, f"cases_{gname}", header, ty_, chk, cs, shard=10, jobs=14)
+        bad, _ = parallel_coq_bad(PROP, f"cases_{gname}", header, ty_, chk, cs, shard=(2 if gname == "copuladrift" else 10), jobs=14)
         if bad:
             res.broke(f"correspondence {gname}", f"model and implementation differ on {len(bad)} case(s), first: {cs[bad[0]][:1500]}")
         else:
@@ -352,6 +357,8 @@ def _copula_drift(res, rng, viol, groups, n_cases):
         flags = [rng.random() < 0.5 for _ in range(dim)]
         if it < 2:
             flags = [True] + [False] * (dim - 1) if it == 0 else [False] + [True] * (dim - 1)      # mixed flags, both ways
+        if dim == 3 and not all(flags) and res.tier == "quick":
+            dim, axes, flags = 2, axes[:2], flags[:2]      # an infinite-variation 3-d model spends ~10 s in the library's nquad (diffusion matrix)
         specs, margins = [], []
         for k in range(dim):
             ax = axes[k][0]
